@@ -9,8 +9,11 @@ VAR_MAPS = [
   {'x': 'col1', 'y': 'value', 'z': 'arg', 's': 'x', 't': 'table', 'u': 'res', 'n': 'k', 'm': 'n', 'd': 'left'},
   {'x': 'y', 'y': 'z', 'z': 'x', 's': 'u', 't': 's', 'u': 't', 'n': 'm', 'm': 'n'},
   {'x': 't_0', 'y': 'xx_1', 'z': 'x1', 's': 'col0', 't': 'x', 'u': 'y', 'n': 'record', 'm': 'right', 'd': 'xx_0'},
+  # names that embed a keyword of the grammar next to an underscore
+  {'x': 'v_else', 'y': 'then_w', 'z': 'z_limit', 's': 'is_k', 't': 'in_t', 'u': 'u_distinct', 'n': 'n_if', 'm': 'order_by_m', 'd': 'd_in'},
 ]
 PRED_MAP_DESC = ['Zeta', 'Yota', 'Xi', 'Whisky', 'Victor', 'Uniform', 'Tango2', 'Sierra', 'Romeo', 'Quebec', 'Papa', 'Oscar', 'Nu', 'Mike']
+PRED_MAP_KEYWORDS = ['Zeta_limit', 'Yota_distinct', 'Xi_else', 'Whisky_then', 'Victor_in', 'Uniform_is', 'Tango_if', 'Sierra_order_by', 'Romeo_limit', 'Quebec_else', 'Papa_then', 'Oscar_in', 'Nu_is', 'Mike_if']
 
 
 def perms(seq, limit=6):
@@ -75,6 +78,19 @@ def variants(program, preds, thorough=False):
   defined = sorted(program.defined())
   if defined:
     pm = {p: PRED_MAP_DESC[i] for i, p in enumerate(defined)}
+    new = []
+    for s in stmts:
+      if isinstance(s, Rule): new.append(functor_model.rename_preds_in_rule(s, pm))
+      elif isinstance(s, Functor): new.append(Functor(pm.get(s.new, s.new), pm.get(s.base, s.base), tuple((pm.get(a, a), pm.get(b, b)) for a, b in s.bindings)))
+      elif isinstance(s, Ann):
+        t = s.text
+        for a, b in pm.items():
+          t = t.replace('(%s,' % a, '(%s,' % b).replace('(%s)' % a, '(%s)' % b)
+        new.append(Ann(t))
+      else: new.append(s)
+    out.append(('predicates', Program(new, program.engine, program.type_checking), [pm.get(p, p) for p in preds], pm))
+    # the same with names that embed a keyword of the grammar after an underscore
+    pm = {p: PRED_MAP_KEYWORDS[i] for i, p in enumerate(defined)}
     new = []
     for s in stmts:
       if isinstance(s, Rule): new.append(functor_model.rename_preds_in_rule(s, pm))
